@@ -45,6 +45,7 @@ type Step struct {
 	N     int      `json:"n,omitempty"`
 	Raw   string   `json:"raw,omitempty"`   // send: literal record instead of Mem
 	Soft  bool     `json:"soft,omitempty"`  // gate: absence of the goroutine is not a divergence
+	Async bool     `json:"async,omitempty"` // callback from a handler that does not wait for it
 	From  string   `json:"from,omitempty"`  // callback/notify issued from the handler with this tag
 	NoCtx bool     `json:"noctx,omitempty"` // callback: issue it with context.Background() (a context that can never end)
 	Proj  *Proj    `json:"proj,omitempty"`  // the model's state after this step, as far as VerifSnapshot shows it
@@ -93,6 +94,7 @@ type runner struct {
 	hgate    map[string]chan hcmd
 	cbCancel map[string]context.CancelFunc
 	batchOf  map[int64]string // goroutine id -> tag of first member of its batch
+	assigned []*jrpc2.Request // every request in assignment order (srv.assign)
 	waitDone chan struct{}
 	stats    map[string]int
 	running  map[string]bool // tags of handlers between HStart and HExit
@@ -140,6 +142,8 @@ func (r *runner) handler(ctx context.Context, req *jrpc2.Request) (any, error) {
 		switch c.op {
 		case "callback":
 			r.doCallback(ctx, jrpc2.ServerFromContext(ctx), c.arg)
+		case "callback-async": // issued with the handler's context values, but the handler stays responsive (steered runs)
+			go r.doCallback(context.WithoutCancel(ctx), jrpc2.ServerFromContext(ctx), c.arg)
 		case "notify":
 			r.doNotify(ctx, jrpc2.ServerFromContext(ctx))
 		default: // ret
@@ -366,6 +370,33 @@ func (r *runner) observe(site string, args []any) {
 	// called on the library goroutine for pass-through sites we only observe
 }
 
+// batchTag names the batch whose first request is first and which has n members: "m<k>", where k is the
+// record number carried by any member's tag (an invalid first member may carry no parameters at all).
+func (r *runner) batchTag(first, n any) string {
+	req, _ := first.(*jrpc2.Request)
+	cnt, _ := n.(int)
+	for i, a := range r.assigned {
+		if a != req {
+			continue
+		}
+		for j := i; j < i+cnt && j < len(r.assigned); j++ {
+			if tg := tagOfReq(r.assigned[j]); strings.HasPrefix(tg, "m") {
+				if k, _, ok := strings.Cut(tg, "."); ok {
+					return k
+				}
+			}
+		}
+	}
+	k, _, _ := strings.Cut(tagOfReq(first), ".")
+	return k
+}
+
+func (r *runner) batchOfGid(gid int64) string {
+	r.rmu.Lock()
+	defer r.rmu.Unlock()
+	return r.batchOf[gid]
+}
+
 func tagOfReq(a any) string {
 	if req, ok := a.(*jrpc2.Request); ok && req != nil {
 		return vh.TagOf(json.RawMessage(req.ParamString()))
@@ -427,7 +458,9 @@ func (r *runner) doStep(st Step) {
 			r.doNotify(context.Background(), r.srv)
 		}
 	case "callback":
-		if st.From != "" {
+		if st.From != "" && st.Async {
+			r.gateL(st.From) <- hcmd{"callback-async", st.C}
+		} else if st.From != "" {
 			r.gateL(st.From) <- hcmd{"callback", st.C}
 		} else if st.NoCtx {
 			go r.doCallback(noCtx, r.srv, st.C)
@@ -449,7 +482,8 @@ func (r *runner) doStep(st Step) {
 			case "srv.invoke.acquire":
 				return p.Site == st.Site && len(p.Args) > 1 && tagOfReq(p.Args[1]) == st.Tag
 			case "srv.deliver.lock":
-				return p.Site == st.Site && r.batchOf[p.Gid] == st.Tag
+				k, _, _ := strings.Cut(st.Tag, ".") // one record is one batch
+				return p.Site == st.Site && r.batchOfGid(p.Gid) == k
 			case "srv.waitcb.lock":
 				return p.Site == st.Site && len(p.Args) > 1 && fmt.Sprint(p.Args[1]) == st.ID
 			}
@@ -549,14 +583,23 @@ func Run(t *testing.T, sc *Scenario, emit func(evs []vh.Event, stats map[string]
 			running: map[string]bool{}, hgate: map[string]chan hcmd{}, cbCancel: map[string]context.CancelFunc{}, batchOf: map[int64]string{}}
 		point := func(site string, args ...any) {
 			if site == "srv.batch.start" {
-				if len(args) > 1 {
-					r.batchOf[goid()] = tagOfReq(args[1])
+				if len(args) > 2 {
+					r.rmu.Lock()
+					r.batchOf[goid()] = r.batchTag(args[1], args[2])
+					r.rmu.Unlock()
 				}
 				return
 			}
 			s.Point(site, args...)
 		}
 		event := func(name string, args ...any) {
+			if name == "srv.assign" && len(args) > 4 { // the members of a batch are assigned consecutively, under the lock
+				if req, ok := args[4].(*jrpc2.Request); ok {
+					r.rmu.Lock()
+					r.assigned = append(r.assigned, req)
+					r.rmu.Unlock()
+				}
+			}
 			switch name { // built-in handlers have no harness wrapper: observe them through the hook
 			case "srv.hstart", "srv.hexit":
 				if len(args) > 1 {
